@@ -97,6 +97,21 @@ def run(ctx, pid, prop_mods, oracles, progs, rule, trusted=(), assumptions=(), p
     # the same programs through every entry point and distributed over real include files (vf/incwrap.py)
     from . import incwrap as IW
     IW.through_entry_points(ctx, pid, [r["text"] for r in recs if not r["ast"].startswith(("PANIC", "CRASH", "HANG"))], failures)
+    # A finding may originate BELOW the typed AST (a lexer or parser defect, e.g. a suffix glued to a literal): the
+    # I5->I6 correspondence above feeds the model the implementation's own AST and cannot see whether the layers below
+    # still behave as recorded.  Every failure that is a candidate for attribution is therefore also run through the
+    # whole pipeline INSIDE the model (text -> lexer -> parser -> tree -> accessors -> pass); attribution requires that
+    # this agrees with the implementation too.
+    if ctx.lake_ok and failures:
+        cand = sorted({f["detail"]["text"] for f in failures if f.get("guards") and "text" in f.get("detail", {})})
+        verdict = dict(zip(cand, SP.chain_agree(ctx, cand, tag=pid.lower() + "-attr")))
+        nbad = 0
+        for f in failures:
+            t = f.get("detail", {}).get("text")
+            if t in verdict and verdict[t] is False:
+                f["model_agrees"] = False
+                nbad += 1
+        ctx.coverage["attribution_candidates_through_whole_model"] = {"texts": len(cand), "disagree": nbad}
     failures.sort(key=lambda f: len(f["case"]))
     C.decide(ctx, failures, C.load_findings(pid))
     ctx.coverage.update({
